@@ -821,6 +821,13 @@ Definition spec_convf (t1 v t2 tol : Z) : option (Z * Z) :=
       | None => None
       end
     else None
+  else if is_float_id t1 && is_float_id t2 then
+    (* an epoch given in ET or TDB read in the other one: its TAI instant by the source scale's closed form, then the target
+       scale's closed form at that instant; each form holds within tol, hence twice tol (and the nanosecond lost flooring the instant) *)
+    if t1 =? t2 then Some (v, v)
+    else if Z.abs v <=? SPAN_10K_YEARS_NS then
+      Some (ns_range (et_of_tai_sc (delta_of t2) (tai_of_et_sc (delta_of t1) v / NS_SC)) (2 * tol + 1))
+    else None
   else None.
 Definition dispatch_ettdb (sinbits : Z -> Z) (name : string) (a : list tok) : option (list tok * list tok) :=
   let sin64 := fun x => f_of_bits (sinbits (f_to_bits x)) in
